@@ -1,4 +1,5 @@
 """C12 - geometric primitives and boxes obey their algebra, with no side effects."""
+import cmath
 import json
 import math
 import os
@@ -337,6 +338,7 @@ def gen_vec_prog(rng):
                 extra["sreps"] = [draw_srep(rng, x, "fni3" if name in ("rot2d", "rotaxis") else "fnim") for x in sc]
             if name == "roots":
                 extra["sreps"] = ["f", "f", rng.choice(["i", "m"])]
+                extra["form"] = rng.choice(["p", "k"])
             if extra:
                 o_.append(extra)
             P.ops.append(o_)
@@ -430,7 +432,8 @@ def gen_vec_prog(rng):
             re, im = rng.randint(-3, 3), rng.randint(-3, 3)
             if re == 0 and im == 0 and rng.random() < 0.8:
                 re = 1
-            fn("roots", [], None, [re, im, rng.randint(1, 8)])
+            sc_ = rng.choice([1, 1, 0.5, 2.0 ** -30, 2.0 ** 30])
+            fn("roots", [], None, [re * sc_, im * sc_, rng.randint(1, 8), rng.choice([1, 0, -1])])
         # the remaining primitives of geometry.py / maths.py / vector.py
         r2 = rng.random() if P.scale == 1 else 1.0
         if r2 < 0.05:
@@ -589,7 +592,7 @@ def op_term(op, ob):
             a, b = float(sc[0]), float(sc[1])
             fls = [math.cos(a), math.sin(a), math.cos(b), math.sin(b), math.cos(a + b), math.sin(a + b)]
         elif name == "roots" and r[0] == "roots":
-            fls = [r[2]]
+            fls = [r[2], r[3]]
         kk = "None" if (which is None or not given) else "(Some %s)" % KIND.get(which, "KBad")
         reps = (list(op[5]) if len(op) > 5 and op[5] else []) + ["a"] * len(args)
         return "(OFn %s %s %s %s %s %s)" % (FN[name], zlist(args), kk, coq_list([q(x) for x in sc]),
@@ -1297,14 +1300,126 @@ def oracle_fn(i, op, ob, A, ops, obs, bad):
             return unexpected()
         c = complex(float(sc[0]), float(sc[1]))
         n = int(sc[2])
+        nz = int(sc[3]) if len(sc) > 3 else -1
+        unit = nz != 0                     # documented default: normalize=True
+        how = {1: "normalize=True", 0: "normalize=False", -1: "normalize omitted"}[nz]
         rs = [complex(z[0], z[1]) for z in r[1]]
         if len(rs) != n:
-            bad(i, "fn/roots/count", "roots(%s, %d) returned %d roots" % (c, n, len(rs)))
-        elif abs(c) > 0 and any(abs(z ** n - c / abs(c)) > 1e-8 for z in rs):
-            bad(i, "fn/roots/power", "roots(%s, %d) = %s: some root to the power %d is not c/|c|" % (c, n, rs, n))
-        elif len({(round(z.real, 6), round(z.imag, 6)) for z in rs}) != n:
-            bad(i, "fn/roots/distinct", "roots(%s, %d) are not pairwise distinct" % (c, n))
+            bad(i, "fn/roots/count", "roots(%s, %d, %s) returned %d roots" % (c, n, how, len(rs)))
+            return
+        m = abs(c)
+        if m > 0:
+            want = c / m if unit else c
+            if any(abs(z ** n - want) > 1e-8 * abs(want) for z in rs):
+                bad(i, "fn/roots/power/" + ("normalized" if unit else "unnormalized"),
+                    "roots(%s, %d, %s) = %s: some root to the power %d is not %s" % (c, n, how, rs[:3], n, "c/|c|" if unit else "c"))
+                return
+        rho = 1.0 if unit else None
+        if any((abs(abs(z) - 1.0) > 1e-9) if unit else False for z in rs):
+            bad(i, "fn/roots/modulus", "roots(%s, %d, %s): a root is not of modulus 1" % (c, n, how))
+            return
+        if not unit and m == 0:
+            if any(z != 0 for z in rs):
+                bad(i, "fn/roots/zero", "roots(0, %d, normalize=False) = %s" % (n, rs[:3]))
+            return
+        # pairwise distinct and equally spaced: consecutive quotients are exp(2 i pi / n)
+        w = cmath.exp(2j * PI / n)
+        if any(abs(rs[(k2 + 1) % n] / rs[k2] - w) > 1e-8 for k2 in range(n)):
+            bad(i, "fn/roots/spacing", "roots(%s, %d, %s) are not the n equally spaced roots" % (c, n, how))
         return
+
+
+# ====================================================================== flags: every optional parameter at every value
+# (function.parameter as enumerated by inspect in the driver) -> the value classes the harness exercises, or the reason why not
+FLAG_PLAN = {
+    "AABB.distance.which": ["l2", "l1", "linf", "<bad>", "<omitted>"],
+    "AABB.of_points.padding": ["0", "pos", "neg", "<omitted>"],
+    "AABB.of_mesh.padding": ["0", "pos", "neg", "<omitted>"],
+    "AABB.unit_cube.centered": ["True", "False", "<omitted>"],
+    "norm.which": ["l2", "l1", "linf", "<bad>", "<omitted>"],
+    "distance.which": ["l2", "l1", "linf", "<bad>", "<omitted>"],
+    "Vec.norm.which": ["l2", "l1", "linf", "<omitted>"],          # no validation in the method: a bad value gives None
+    "Vec.normalize.which": ["l2", "l1", "linf", "<omitted>"],
+    "Vec.normalized.which": ["l2", "l1", "linf", "<omitted>"],
+    "roots.normalize": ["True", "False", "<omitted>"],
+    "match_rotation.symgroup": "exempt: scipy Rotation groups, outside the model (side-effect event table only)",
+    "match_rotation.threshold": "exempt: scipy Rotation groups, outside the model (side-effect event table only)",
+}
+FN_FLAG = {"norm": "norm.which", "vnorm": "Vec.norm.which", "distance": "distance.which", "normalized": "Vec.normalized.which"}
+
+
+def flag_uses(op):
+    """(plan key, value class) exercised by one op"""
+    od = optd(op)
+    o = opcore(op)
+    omitted = od.get("form", "k") == "o"
+
+    def kind(w):
+        return "<omitted>" if omitted else (w if w in KINDS else "<bad>")
+
+    def sign(x):
+        return "<omitted>" if omitted else ("0" if float(x) == 0 else ("pos" if float(x) > 0 else "neg"))
+    k = o[0]
+    if k == "distance":
+        return [("AABB.distance.which", kind(o[3]))]
+    if k == "ofpts":
+        return [("AABB.of_points.padding", sign(o[3]))]
+    if k == "of_mesh":
+        return [("AABB.of_mesh.padding", sign(o[3]))]
+    if k == "unit_cube":
+        return [("AABB.unit_cube.centered", "<omitted>" if omitted else str(bool(o[3])))]
+    if k == "normalize":
+        return [("Vec.normalize.which", kind(o[2]))]
+    if k == "fn" and o[1] in FN_FLAG and o[3] is not None:
+        return [(FN_FLAG[o[1]], kind(o[3]))]
+    if k == "fn" and o[1] == "roots":
+        nz = int(o[4][3]) if len(o[4]) > 3 else -1
+        return [("roots.normalize", {1: "True", 0: "False", -1: "<omitted>"}[nz])]
+    return []
+
+
+def flag_sweep_programs():
+    """deterministic programs that exercise every planned value of every flag (so that no flag value depends on the seed);
+    roots: pow 1..8 x normalize True / False / omitted x unit, non-unit, tiny, huge and zero inputs"""
+    progs = []
+    cs = [(1, 0), (-1, 0), (0, 1), (1, 1), (3, -4), (0.5, 0), (2.0 ** -60, 0), (2.0 ** -60, -(2.0 ** -60)), (2.0 ** 60, -(2.0 ** 60)), (0, 0)]
+    for (re, im) in cs:
+        ops = []
+        for n in range(1, 9):
+            for nz in (1, 0, -1):
+                ops.append(["fn", "roots", [], None, [re, im, n, nz], [],
+                            {"sreps": ["f", "f", "im"[n % 2]], "form": "pk"[(n + nz) % 2]}])
+        progs.append({"ops": ops})
+    # the norm kinds, in every call form, on every function that takes `which`
+    ops = [["arr", 0, [3.0, -4.0, 12.0], "f"], ["arr", 1, [1.0, 1.0, 0.0], "f"], ["arr", 2, [0.0, 0.0, 0.0], "f"], ["arr", 3, [2.0, 2.0, 2.0], "f"],
+           ["box", 0, 2, 3, "aa"]]
+    for w in KINDS + ["l3"]:
+        for form in (["o", "p", "k"] if w == "l2" else ["p", "k"]):
+            d = {"form": form}
+            ops.append(["fn", "norm", [0], w, [], ["a"], d])
+            ops.append(["fn", "distance", [0, 1], w, [], ["a", "v"], d])
+            ops.append(["distance", 0, 0, w, "a", d])
+            if w in KINDS:
+                ops.append(["fn", "vnorm", [0], w, [], ["v"], d])
+                ops.append(["fn", "normalized", [0], w, [], ["a"], d])
+                ops.append(["normalize", len(ops) + 100, w, d])
+                ops.insert(-1, ["arr", len(ops) + 100, [1.0, -2.0, 2.0], "f"])
+                ops[-1][1] = ops[-2][1]
+    progs.append({"ops": ops})
+    # paddings and the centered flag
+    ops = [["arr", 0, [0.0, 1.0, 2.0], "f"], ["arr", 1, [3.0, -1.0, 0.5], "f"]]
+    nb = 0
+    for pd in (0, 0.5, -0.25):
+        for form in (["o", "p", "k"] if pd == 0 else ["p", "k"]):
+            ops.append(["ofpts", nb, [0, 1], pd, "a", {"form": form, "sreps": ["f"]}])
+            ops.append(["of_mesh", nb + 1, [0, 1], pd, {"form": form, "sreps": ["f"]}])
+            nb += 2
+    for cen in (False, True):
+        for form in (["o", "p", "k"] if not cen else ["p", "k"]):
+            ops.append(["unit_cube", nb, 3, cen, {"form": form, "sreps": ["i", "B"]}])
+            nb += 1
+    progs.append({"ops": ops})
+    return progs
 
 
 # ====================================================================== shrinking / replay
@@ -1437,6 +1552,9 @@ def run(ctx):
         "constructor (zeros, X, Y, Z, random) is also made twice with the same arguments: the results must share no buffer "
         "(np.shares_memory), the first is modified in place (pad / component write) and the second, and a third made "
         "afterwards, are looked at again",
+        "every optional parameter of the five modules is enumerated with inspect on the running code and must be in FLAG_PLAN; a "
+        "deterministic sweep exercises every planned value class of every flag (roots: pow 1..8 x normalize True/False/omitted x unit, "
+        "non-unit, 2^-60, 2^60 and zero inputs; root^n = c resp. c/|c|, equally spaced); match_rotation's parameters are exempt (scipy)",
         "call forms: every optional argument (which / padding / centered) is omitted, passed positionally or by keyword; the model "
         "resolves an omitted argument with the default extracted from the def line (theorem C12_defaults_documented); scalar "
         "arguments are passed as python float / int, np.float64, np.int64, np.float32, flags as bool / np.bool_ / int; a fraction of "
@@ -1459,6 +1577,7 @@ def run(ctx):
             if f.endswith(".json"):
                 d = json.load(open(os.path.join(cdir, f)))
                 progs.append({"ops": d["ops"]})
+    progs += flag_sweep_programs()
     ncorpus = len(progs)
     for _ in range(n_box):
         progs.append({"ops": gen_box_prog(ctx.rng).ops})
@@ -1484,6 +1603,23 @@ def run(ctx):
         ctx.case_seen(p["ops"], nontrivial=nontrivial(p, o),
                       sample={"program": p["ops"][:8], "observed": [w["r"] for w in o[:8]]})
     ctx.extra["calls"] = ncalls
+    # every optional parameter of every function of the cone (enumerated with inspect on the running code) is planned, and
+    # every planned value class was exercised in this run
+    sigs = core.run_impl("vf.impl.c12_driver", {"signatures": True}, timeout=120)["signatures"]
+    keys = ["%s.%s" % (q_, p_) for q_, p_, _ in sigs]
+    unplanned = [k_ for k_ in keys if k_ not in FLAG_PLAN]
+    used = {}
+    for p in progs:
+        for op in p["ops"]:
+            for k_, v_ in flag_uses(op):
+                used.setdefault(k_, set()).add(v_)
+                ctx.count("flag %s=%s" % (k_, v_))
+    missing = ["%s=%s" % (k_, v_) for k_, vs in FLAG_PLAN.items() if isinstance(vs, list) for v_ in vs if v_ not in used.get(k_, set())]
+    stale = [k_ for k_ in FLAG_PLAN if k_ not in keys]
+    ctx.extra["optional_parameters"] = sigs
+    ctx.obligation("every optional parameter found by inspect in the five modules is planned (%d found) and every planned value "
+                   "class is exercised" % len(keys), "harness", not unplanned and not missing and not stale,
+                   "unplanned: %s; never exercised: %s; planned but absent from the code: %s" % (unplanned, missing, stale))
     ctx.log("%d programs (%d from the corpus), %d calls on the implementation" % (len(progs), ncorpus, ncalls))
 
     # 1. oracle on every program = the search for a failing input; EVERY failing call is classified
